@@ -109,7 +109,7 @@ def run(ctx):
             return "the interpreted source and the implementation differ on %s: impl %s, interpreter %s" % (c["meta"]["fn"], io[:80], mo[:80])
         return None
     core.run_stream(ctx, core.Stream("interpreted source (Gen/Source.v via PySrc.run_prog) vs implementation: is_signable / checkformat_signable on envelope shapes",
-                                     scases, rel_src, None, nontrivial=lambda c, i, m: m != "U"))
+                                     scases, rel_src, None, nontrivial=lambda c, i, m: m != "U", mismatch_kind="tie"))
     # dates: model of strptime + datetime range checks vs the implementation, and vs an independent regex oracle
     dcases = []
     dates = list(DATES)
@@ -211,6 +211,6 @@ def run(ctx):
     for d in ({"root": good}, {"root": good, "key_mgr": M.delegation((1,), 1)}, {"root": good, 5: good}, {"root": 5}, {}, {"root": M.delegation((0, 0), 1)}, {"x": good, "y": {"pubkeys": [], "threshold": 0}}):
         wc.append({"w": wire.case("src_run", "checkformat_delegations", d), "meta": {"fn": "checkformat_delegations"}})
     core.run_stream(ctx, core.Stream("interpreted source (Gen/Source.v via PySrc.run_prog) vs implementation: the whole checker and its parts on the cases of the streams above",
-                                     wc, rel_src, None, nontrivial=lambda c, i, m: m != "U"))
+                                     wc, rel_src, None, nontrivial=lambda c, i, m: m != "U", mismatch_kind="tie"))
     ctx.assumptions = ["'integer' is the code's grammar int(x) == x and x >= 1 (True and 2.0 included), written into the schema (DESIGN N2)",
                        "the UTC grammar is CPython's strptime for %Y-%m-%dT%H:%M:%SZ plus datetime range checks (Time.v)"]
